@@ -588,7 +588,10 @@ func main() {
 						er := iohelp.NewErrorReader(fr)
 						_ = iohelp.ReadUint64(er) // priming read fills the whole scratch
 						if er.Err != nil {
-							vlib.Fatal("priming read failed")
+							// all eight bytes of the priming value were delivered (possibly together with the error that belongs to
+							// what follows): a complete read is not a failed read
+							run.Report("C20|stream|complete-read-reported-as-failed|Uint64", fmt.Sprintf("ReadUint64 received all 8 bytes but latched %v", er.Err), c)
+							continue
 						}
 						var res string
 						pk, what := catch(func() { res = sr.read(er) })
@@ -602,7 +605,8 @@ func main() {
 						}
 						results = append(results, res)
 					}
-					for _, res := range results[1:] {
+					for ri := 1; ri < len(results); ri++ {
+						res := results[ri]
 						if res != results[0] {
 							run.Report("C20|stream-fail|stale|"+sr.name, fmt.Sprintf("Read%s after a failed read (%d of %d fresh bytes) returned %v depending on what the previous read left in the scratch buffer (5 different primings)", sr.name, k, sr.w, results), c)
 							break
